@@ -161,28 +161,31 @@ func TestC13(t *testing.T) {
 			return
 		}
 
-		// exhaustive small part: a data record on each of the 16 never-defined
-		// local types (normal header) and 4 (compressed header) must fail
-		n := int64(0)
-		for local := 0; local < 16; local++ {
-			for _, compressed := range []bool{false, true} {
-				if compressed && local > 3 {
-					continue
-				}
-				s := &fitmodel.Stream{HeaderSize: 12, Proto: 0x20, Recs: []fitmodel.Rec{
-					{IsDef: true, Local: byte((local + 1) % 16), Global: 0, Fields: []fitmodel.FieldDef{{Num: 0, Size: 1, Base: 0}}},
-					{Local: byte((local + 1) % 16), Raw: []byte{4}},
-					{Local: byte(local), Compressed: compressed},
-				}}
-				c := streamCase{FileType: 4, Stream: s, Text: s.String()}
-				n++
-				if msg, ok := checkStream(rec, c); !ok {
-					rec.Fail("undefined", "", msg, c)
+		if hx.FirstShard() {
+			// exhaustive small part: a data record on each of the 16 never-defined
+			// local types (normal header) and 4 (compressed header) must fail
+			n := int64(0)
+			for local := 0; local < 16; local++ {
+				for _, compressed := range []bool{false, true} {
+					if compressed && local > 3 {
+						continue
+					}
+					s := &fitmodel.Stream{HeaderSize: 12, Proto: 0x20, Recs: []fitmodel.Rec{
+						{IsDef: true, Local: byte((local + 1) % 16), Global: 0, Fields: []fitmodel.FieldDef{{Num: 0, Size: 1, Base: 0}}},
+						{Local: byte((local + 1) % 16), Raw: []byte{4}},
+						{Local: byte(local), Compressed: compressed},
+					}}
+					c := streamCase{FileType: 4, Stream: s, Text: s.String()}
+					n++
+					if msg, ok := checkStream(rec, c); !ok {
+						rec.Fail("undefined", "", msg, c)
+					}
 				}
 			}
+			rec.Eval("undefined", n)
+			rec.NonTrivialEnum(n)
+
 		}
-		rec.Eval("undefined", n)
-		rec.NonTrivialEnum(n)
 
 		hx.RapidCheck(t, rec, "machine", func(rt *rapid.T, fail func(string, string, any)) {
 			d := gen.D{T: rt}
